@@ -294,6 +294,9 @@ func (g *gen) query(c *colSpec, depth int, filterOnly bool) *N {
 	return g.leaf(c, vh.Pick(g.r, cands), depth)
 }
 
+var selectPool = []string{"extra", "extra.l", "extra.l.0", "extra.l.1", "extra.l.x", "extra.l.*", "extra.n", "extra.n.x", "note", "note.x", "tags.0", "tags.x", "vec.0", "vec.*", "size.x", "price.0",
+	"meta", "meta.kind", "meta.kind.x", "geo", "geo.loc.0", "", ".", "a..b", "*", "nosuch", "nosuch.x", "_id", "vector", "metadata", "metadata.0", "k", "k.0"}
+
 func (g *gen) search(c *colSpec) *N {
 	req := Obj("query", g.query(c, 0, false), "limit", Int(int64(1+g.r.Intn(100))))
 	switch g.r.Intn(5) {
@@ -309,11 +312,19 @@ func (g *gen) search(c *colSpec) *N {
 		if g.r.Chance(30) {
 			sel.A = append(sel.A, Str("note"), Str("extra.n"))
 		}
+		if g.r.Chance(35) { // paths that may not fit the structure of the stored points
+			for k := 0; k < 1+g.r.Intn(3); k++ {
+				sel.A = append(sel.A, Str(vh.Pick(g.r, selectPool)))
+			}
+		}
 		req.Set("select", sel)
 	}
 	if g.r.Chance(30) && len(c.props) > 0 {
 		p := vh.Pick(g.r, c.props)
 		req.Set("sort", Arr(Obj("property", Str(p.path), "descending", Bool(g.r.Bool()))))
+		if g.r.Chance(30) {
+			req.Get("sort").A = append(req.Get("sort").A, Obj("property", Str(vh.Pick(g.r, selectPool)), "descending", Bool(g.r.Bool())))
+		}
 		if req.Get("select") == nil {
 			req.Set("select", Arr(Str(p.path)))
 		}
